@@ -15,6 +15,7 @@ C19 -- Verilog generation is a pure, repeatable function of the circuit.
 """
 import io
 import itertools
+import zlib
 import sys
 
 import z3
@@ -162,6 +163,18 @@ def isolation_task(p, cfg, rec):
             equivalent_texts(p, 'request %d (%s on %s) vs the text of a fresh interpreter' % (k, kind, dn), refs[dn], t)
 
 
+def freeze(v, depth=0):
+    """value of an attribute of a block as generation must leave it: numbers and strings by value, wires and blocks by
+    identity, lists/tuples/dicts element-wise (e.g. the bit list of BitsMSBF)"""
+    if isinstance(v, (int, str, float, bool, type(None))):
+        return v
+    if depth < 3 and isinstance(v, (list, tuple)):
+        return [freeze(e, depth + 1) for e in v]
+    if depth < 3 and isinstance(v, dict):
+        return sorted((repr(k), freeze(e, depth + 1)) for k, e in v.items())
+    return ('obj', type(v).__name__, id(v))
+
+
 def graph_snapshot(obj):
     """structure of the object graph that generation must not alter"""
     def rec(o):
@@ -172,6 +185,8 @@ def graph_snapshot(obj):
             'params': dict(getattr(o, 'parameters', {})) if hasattr(o, 'parameters') else None,
             'children': [rec(c) for c in o.children.values()],
             'clockDriver': id(o.clockDriver) if o.clockDriver is not None else None,
+            'attrs': {k: freeze(v) for k, v in o.__dict__.items() if k not in ('parent', 'children', 'inPorts', 'outPorts', 'inOutPorts', '_wires',
+                                                                             'parameters', 'clockDriver', 'simulator', 'propagate', 'clock')},
         }
     return rec(obj)
 
@@ -294,32 +309,45 @@ def equivalent_texts(p, label, t1, t2, top=None):
 
 def seq_task(p, cfg, rec):
     dname, seq = cfg['design'], cfg['seq']
+    wrapped = cfg.get('build') or wrap_in_box(DESIGNS[dname], 'seq')
     with quiet():
         s = py4hw.HWSystem()
-        box, ins, outs, extra = wrap_in_box(DESIGNS[dname], 'seq')(s)
-    g0 = graph_snapshot(s)
+        try:
+            box, ins, outs, extra = wrapped(s)
+        except Exception as e:
+            p.res['refused'] += 1
+            p.note('%s: constructor refused: %r' % (p.config, e))
+            return
     before, vars_ = step_terms(s, ins)
     texts = []
     gens = {}
+    g0 = graph_snapshot(s)
     try:
         texts.append((-1, 'reference: fresh generator before the sequence', gen('H', box, {})))
     except Exception as e:
+        if cfg.get('build'):
+            # a block the generator cannot express: a refusal is not a purity matter (but it must leave the circuit alone)
+            p.res['refused'] += 1
+            p.structural('a refused generation leaves the object graph and block attributes unchanged', graph_snapshot(s) == g0)
+            return
         p.structural('reference generation completes', False, detail={'exception': repr(e)})
+    p.structural('object graph and block attributes (ports, children order, wires, parameters, clock drivers, lists held by blocks) unchanged by the reference request',
+                 graph_snapshot(s) == g0)
     for k, kind in enumerate(seq):
         if kind.isdigit():
             with quiet():
                 s.getSimulator().clk(int(kind))
             continue
+        g0 = graph_snapshot(s)
         try:
             t = gen(kind, box, gens)
         except Exception as e:
             p.structural('request %d (%s) completes' % (k, kind), False, detail={'exception': repr(e)})
             continue
+        p.structural('object graph and block attributes unchanged by request %d (%s)' % (k, kind), graph_snapshot(s) == g0)
         if t is not None:
             texts.append((k, kind, t))
         p.res['programs'] += 1
-    g1 = graph_snapshot(s)
-    p.structural('object graph (ports, children order, wires, parameters, clock drivers) unchanged by %s' % ','.join(seq), g0 == g1)
     after, v2 = step_terms(s, ins)
     conds = []
     keys = []
@@ -332,7 +360,7 @@ def seq_task(p, cfg, rec):
     def replay(values):
         with quiet():
             s2 = py4hw.HWSystem()
-            box2, ins2, outs2, extra2 = wrap_in_box(DESIGNS[dname], 'seq')(s2)
+            box2, ins2, outs2, extra2 = wrapped(s2)
         a, _ = step_terms(s2, ins2, values)
         g2 = {}
         for kind in seq:
@@ -391,6 +419,16 @@ def tasks_for(tier):
     for dn in DESIGNS:
         for sq in seqs:
             t.append(('%s: requests %s' % (dn, ' '.join(sq)), seq_task, {'design': dn, 'seq': sq}))
+    # purity over the C01 corpus of library blocks: generate twice, compare graph, one symbolic step and the two texts
+    seen_cls = set()
+    for k, (name, cfg) in enumerate(c01.cfgs(tier, 0)):
+        cls = name.split()[0]
+        if cfg.get('assume') is not None:
+            continue                      # Div/Mod: the simulator's result for a zero divisor is documented as arbitrary
+        if cls in seen_cls and zlib.crc32(name.encode()) % (8 if quick else 2):
+            continue                      # every block class at least once, plus a sample of its other configurations
+        seen_cls.add(cls)
+        t.append(('corpus %s: requests H H' % name, seq_task, {'design': name, 'seq': ['H', 'H'], 'build': cfg['build']}))
     t.append(('sub-block modules requested from different ancestors', ancestor_task, {}))
     k3, k5 = 'constructor constants k=3', 'constructor constants k=5'
     inter = [[(k3, 'H'), (k5, 'H')], [(k5, 'H'), (k3, 'H'), (k5, 'h'), (k3, 'h')], [('behavioural leaves', 'H'), (k5, 'H'), ('structural', 'H'), (k3, 'H')]]
@@ -411,6 +449,7 @@ def main(argv=None):
         assumptions=['request kinds: H whole hierarchy with a fresh generator, h same generator object, S caller-supplied createdStructures, M single module (fresh generator), m/c/p the same generator object asked for the single top module / a child module / the hierarchy of a child, O generation for another circuit, digits = clk(n) in between; every text is compared with a reference generated by a fresh generator before the sequence',
                      'two-state Verilog semantics (see C01)'],
         bounds={'designs': sorted(DESIGNS), 'sequences': 'up to 3 generation requests (5 items) per sequence', 'sub-blocks': '3 sub-blocks x 4 ancestors',
+                'corpus': 'every block class of the C01 corpus at least once plus a 1/8 (thorough 1/2) sample of its other configurations, requests H H; Div/Mod excluded (arbitrary result for a zero divisor)',
                 'interleaving': 'up to 4 requests over 2..4 circuits, two of which instantiate the same behavioural classes with different constructor constants; reference text from a fresh interpreter per circuit'},
         trusted_base=['z3', 'symx', 'vlog front end'])
 
